@@ -63,6 +63,10 @@ def long_lived():
                 for mid in (["at", t, "q"], ["rev", t, "q"], ["at", "s", "q"], ["fwd", "e1" if t != "e1" else "e2", "q"], ["at", t, "m"]):
                     out.append({"pool": pool, "hist": [["mk", "P", kind, t], ["q", "P", "p"], mid, ["q", "P", "p2"]]})
                 out.append({"pool": pool, "hist": [["mk", "P", kind, t], ["q", "P", "q"], ["q", "P", "p"]]})
+                if kind in ("diff", "diff_early"):
+                    out.append({"pool": pool, "hist": [["mk", "P", kind, t], ["qat", "P", "q"], ["qat", "P", "p"]]})
+                    out.append({"pool": pool, "hist": [["mk", "P", kind, t], ["qat", "P", "q"], ["q", "P", "p"]]})
+                    out.append({"pool": pool, "hist": [["mk", "P", kind, t], ["qat", "P", "q"], ["qasexp", "P"]]})
                 out.append({"pool": pool, "hist": [["mk", "P", kind, t], ["qasexp", "P"], ["q", "P", "p"]]})
                 out.append({"pool": pool, "hist": [["mk", "P", kind, t], ["q", "P", "q"], ["qasexp", "P"]]})
                 out.append({"pool": pool, "hist": [["mk", "P", kind, t], ["q", "P", "q"], ["qasexp", "P"], ["q", "P", "p"]]})
@@ -86,7 +90,7 @@ def jobs(tier, seed):
     co = composed()
     rng = random.Random(12345)
     if tier == "quick":
-        sel = l2[::41] + ll[::5] + co[::3]
+        sel = l2[::41] + ll[::5] + [h for h in ll if any(o[0] == "qat" for o in h["hist"])][::4] + co[::3]
     else:
         sel = l2[::3] + ll + co
         rng3 = random.Random(seed)
@@ -98,6 +102,13 @@ def jobs(tier, seed):
                 h.append(op(k, rng3.choice(["e1", "e2", "e3", "s"]), rng3.choice(["q", "q", "m", "p"])))
             h.append(op(rng3.choice(FINAL), rng3.choice(["e1", "e2", "e3"]), "p"))
             sel.append({"pool": pool, "hist": h})
+    for t in ("e1", "e2", "e3"):
+        # an undefined, still reducible variable-free sub-expression met by the simplifier a second time
+        sel.append({"pool": "I", "hist": [["norm", t], ["norm", t]]})
+        sel.append({"pool": "I", "hist": [["norm", "s"], ["norm", t]]})
+        sel.append({"pool": "I", "hist": [["asexp", t], ["asexp", t]]})
+        sel.append({"pool": "I", "hist": [["norm", "w"], ["asexp_rev", t]]})
+        sel.append({"pool": "J", "hist": [["norm", t], ["asexp", t]]})
     for t in ("e1", "e3"):
         sel.append({"pool": "F", "hist": [["mk", "P", "partial", t], ["q", "P", "q"], ["qasexp", "P"], ["q", "P", "p"]]})
         sel.append({"pool": "F", "hist": [["at", t, "q"], ["early", t, "p"]]})
